@@ -212,7 +212,11 @@ func (d *PathDecoder) decodeReferenceTargetsForBody(body hcl.Body, parentBlock *
 				fullSchema := depSchema
 				if bSchema.Address.BodyAsData {
 					mergedSchema, _ := schemahelper.MergeBlockBodySchemas(blk.Block, bSchema)
-					bodyRef.NestedTargets = make(reference.Targets, 0)
+					if bSchema.Address.InferDependentBody && len(bSchema.DependentBody) > 0 {
+						// collected anew from the merged body below
+						// (the targets inferred from the static body stay otherwise)
+						bodyRef.NestedTargets = make(reference.Targets, 0)
+					}
 					fullSchema = mergedSchema
 				}
 
